@@ -59,6 +59,13 @@ func (p *Provider) Provide(w io.WriteSeeker) (retErr error) {
 		if _, err := w.Seek(0, io.SeekStart); err != nil {
 			return err
 		}
+		// A previous attempt may have failed after writing part of a backup. Discard
+		// that data, so none of it is left behind a shorter, successful backup.
+		if t, ok := w.(interface{ Truncate(size int64) error }); ok {
+			if err := t.Truncate(0); err != nil {
+				return err
+			}
+		}
 		err := p.str.Backup(context.Background(), br, w)
 		if err == nil {
 			break
